@@ -67,6 +67,10 @@ add("C18", "exploration", "reference codecs (own offset tables / decoders) + rou
     "For each structure (EFI GUID, GUID-table entries, SEV/TDX metadata records, SEV-ES reset block, VMSA, PAGE_INFO, PI HOBs, TCG event-log records, SP800-155 events) boundary-biased values are encoded and compared byte for byte with an independent layout model, decoded back, truncated at every length, extended, and given non-zero reserved bytes one at a time through three reader kinds; whatever a decoder accepts must re-encode to the consumed bytes.",
     TB_GO, "DESIGN.md section 3 C18")
 
+add("C06", "exploration", "field-by-field recomputation monitor (independent snpref/tdxref models, own sha384, own count list) over generated endorsement requests",
+    "Generated requests (images 64 KiB..2 MiB, technology subsets, explicit/default/non-GCE VMSA counts, both products, machine-shape lists with and without early accept incl. unknown names, SVN, IDs, SVSM, provenance, timestamps; images with SNP-only or TDX-only valid metadata) are run through endorse.GoldenMeasurement and endorse.SignDoc with a bootstrapped authority; every field of the message and of the re-parsed signed payload is compared with an independent recomputation, and requests that cannot be measured must fail instead of yielding placeholder or left-over entries.",
+    TB_GO + " Measurement values rely on the C04/C05 reference models.", "DESIGN.md section 3 C06")
+
 props = [json.loads(l) for l in open(os.path.join(V, 'properties.jsonl'))]
 checks, na = [], []
 for p in props:
